@@ -72,6 +72,7 @@ def gen_history(rng) -> dict:
     n_prefix = rng.choice([0, 1, 1, 2, 2, 3])
     builds = []
     statics: list[str] = []
+    static_touch: list = []
     for i in range(n_prefix):
         fail = rng.choice([None, None, None, "lex", "build", "header"]) if i > 0 or rng.random() < 0.3 else None
         b = project(rng, overrides, statics, copy_src is not None, fail=fail)
@@ -85,9 +86,114 @@ def gen_history(rng) -> dict:
             if len(statics) > 1:
                 touch.append(["data/minecraft/keepmc/m.txt", "vanilla override"])
             builds.append(dict(project(rng, overrides, statics, copy_src is not None), touch=touch))
+            static_touch = touch
     last = project(rng, overrides, statics, copy_src is not None)
     return dict(ns="ns", pack_format=rng.choice(["48", "48", "26"]), desc="d", out_exists=rng.random() < 0.8, init=init,
-                copy_src=copy_src, out_dotdot=rng.random() < 0.2, builds=builds, last=last, statics=statics)
+                copy_src=copy_src, out_dotdot=rng.random() < 0.2, builds=builds, last=last, statics=statics,
+                static_touch=static_touch if statics else [])
+
+
+# ---- strengthening round 1: #static folders whose NAME is string-related to a JMC-generated sibling that later disappears.
+# `rmtree` must decide by path containment; a decision by string prefix / case-folded or reversed comparison shields the
+# generated sibling (`function/util` vs `function/utils/x.mcfunction`, `adv` vs `advancement/`, `function/f` vs
+# `function/f.mcfunction`, `../minecraft/tag` vs `data/minecraft/tags/...`), so files of a removed class survive the rebuild.
+# statics = spellings as written after #static (relative to data/<ns>; `..`, `./`, trailing `/` are resolved by JMC),
+# touch = what the user puts there, colliders = source parts whose output is a string-relative of a static.
+ADV = 'new advancement(x.y) {"a":1}'
+STATIC_FAMILIES = [
+    dict(name="dir-prefix-of-class-folder", statics=["function/util"],
+         touch=[["data/ns/function/util/hand.mcfunction", "say hand"], ["data/ns/function/util/sub/deep.mcfunction", "say deep"]],
+         colliders=[fn("utils.x"), fn("util_b.y.z"), fn("utilx"), 'class Util2 { function w() { say "w"; } function v() { say "v"; } }']),
+    dict(name="dir-prefix-of-function-file", statics=["function/f", "function/gg/"],
+         touch=[["data/ns/function/f/hand.txt", "h"], ["data/ns/function/gg/hand.txt", "h2"]],
+         colliders=[fn("f"), fn("fx"), fn("gg"), fn("ggg.h")]),
+    dict(name="dir-prefix-of-json-folder", statics=["adv", "./pred", "jmc"],
+         touch=[["data/ns/adv/n.txt", "n"], ["data/ns/pred/m.txt", "m"], ["data/ns/jmc/k.txt", "k"]],
+         colliders=[ADV, 'new predicate(p) {"condition":"minecraft:random_chance","chance":0.5}', 'new advancement(adv2) {"b":2}']),
+    dict(name="minecraft-tag-prefix", statics=["../minecraft/tag", "keep"],
+         touch=[["data/minecraft/tag/m.txt", "mine"], ["data/ns/keep/a.txt", "precious"]],
+         colliders=[TICK, fn("keeper.z")], tick_collider=True),
+    dict(name="equal-up-to-case", statics=["function/Util", "Advancement", "function/A"],
+         touch=[["data/ns/function/Util/hand.txt", "h"], ["data/ns/function/Util/X.mcfunction", "say hand X"],
+                ["data/ns/Advancement/n.txt", "n"], ["data/ns/Advancement/X/Y.json", "{}"], ["data/ns/function/A/q.txt", "q"],
+                ["data/ns/function/A/B.mcfunction", "say hand B"]],
+         colliders=[fn("util.x"), ADV, fn("a.b"), fn("UTIL.y")]),
+    dict(name="override-sibling", overrides=["foo"], statics=["../foo/adv", "../foo/function/h", "../foo/function/../keepfoo"],
+         touch=[["data/foo/adv/n.txt", "n"], ["data/foo/function/h/hand.txt", "h"], ["data/foo/keepfoo/z.txt", "z"]],
+         colliders=[fn("foo.h"), 'new advancement(foo.adv) {"b":2}', fn("foo.hh.i"), fn("foo.keepfoo2")]),
+    dict(name="nested-statics", statics=["keep/", "keep/sub/../sub", "function/a/handmade", "function/a/handmade/inner"],
+         touch=[["data/ns/keep/a.txt", "precious"], ["data/ns/keep/sub/b.txt", "more"], ["data/ns/keep/subway/c.txt", "c"],
+                ["data/ns/function/a/handmade/h.mcfunction", "say h"], ["data/ns/function/a/handmade/inner/i.mcfunction", "say i"]],
+         colliders=[fn("a.handmade2.q"), fn("a.b"), fn("a.handmad"), fn("a.deep.c"), fn("keep2.r")]),
+    dict(name="same-basename-elsewhere", statics=["keep", "function/lib", "../minecraft/function"],
+         touch=[["data/ns/keep/a.txt", "precious"], ["data/ns/function/lib/hand.mcfunction", "say lib"], ["data/minecraft/function/v.txt", "v"]],
+         colliders=[fn("keep.y"), fn("x.lib.z"), 'new advancement(keep.q) {"c":3}', fn("lib2.lib.w"), TICK]),
+    dict(name="generated-prefix-of-static", statics=["function/utils_keep", "advancement_old", "function/a.b"],
+         touch=[["data/ns/function/utils_keep/h.txt", "h"], ["data/ns/advancement_old/o.json", "{}"], ["data/ns/function/a.b/d.txt", "d"]],
+         colliders=[fn("utils.x"), ADV, fn("a.b"), fn("a")]),
+]
+
+
+def family_history(rng, fam: dict, light: bool) -> dict:
+    """build 1: the colliders exist (no #static yet); build 2: the user adds the folders and registers them, some colliders
+    still there; [a failing build]; last: (most of) the colliders are gone from the sources -> their files must be gone."""
+    overrides = fam.get("overrides", [])
+    hl = [f"#override {o}" for o in overrides] + [f'#static "{s}"' for s in fam["statics"]]
+    rng.shuffle(hl)
+    header = "\n".join(hl)
+    header0 = "\n".join(f"#override {o}" for o in overrides) or None
+    cols = list(fam["colliders"])
+    others = [p for p in PARTS if rng.random() < 0.3 and p not in cols and "a.b" not in p and "a.deep" not in p and p != ADV]
+    keep_in_last = [c for c in cols if rng.random() < 0.25][:len(cols) - 2]     # at least two colliders disappear
+    second = cols
+
+    def src(parts):
+        parts = list(dict.fromkeys(parts)) or [fn("g")]
+        rng.shuffle(parts)
+        return "\n".join(parts)
+    builds = [dict(src=src(cols + others), header=header0),
+              dict(src=src(second + others + [fn("g")]), header=header, touch=fam["touch"])]
+    if rng.random() < 0.4:
+        builds.append(dict(src=src(cols) + "\n" + rng.choice(FAIL_LEX), header=header))
+    if rng.random() < 0.4:
+        builds.append(dict(src=src([c for c in cols if rng.random() < 0.5] + [fn("g")]), header=header))   # some colliders go ...
+        builds.append(dict(src=src(cols + others), header=header))                                   # ... and come back
+    last = dict(src=src(keep_in_last + others + [fn("g2")]), header=header)  # ... and disappear again
+    return dict(ns="ns", pack_format=rng.choice(["48", "48", "26"]), desc="d", out_exists=True, init=[], copy_src=None,
+                out_dotdot=rng.random() < 0.3, builds=builds, last=last, statics=list(fam["statics"]),
+                static_touch=fam["touch"], family=fam["name"], light=light)
+
+
+def family_histories(rng, tier: str) -> list[dict]:
+    """quick: every family once without crash enumeration (the un-interrupted run, twice, and the comparison with the build into
+    a tree holding only jmc.txt and the static content) + 2 families drawn from ck.rng with every crash point; thorough: x3 / all."""
+    fams = [dict(f) for f in STATIC_FAMILIES]
+    hs = []
+    reps = 1 if tier == "quick" else 3
+    for _ in range(reps):
+        for f in fams:
+            hs.append(pf_fix(family_history(rng, f, light=True)))
+    heavy = rng.sample(fams, 2) if tier == "quick" else fams
+    for f in heavy:
+        hs.append(pf_fix(family_history(rng, f, light=False)))
+    return hs
+
+
+def pf_fix(h: dict) -> dict:
+    """pack formats below 48 use the folder `functions`: rename the hand-made paths accordingly"""
+    if float(h["pack_format"]) >= 48:
+        return h
+    def ren(pth):
+        return pth.replace("/function/", "/functions/")
+    h = copy.deepcopy(h)
+    for b in h["builds"] + [h["last"]]:
+        if b.get("touch"):
+            b["touch"] = [[ren(p), c] for p, c in b["touch"]]
+        if b.get("header"):
+            b["header"] = b["header"].replace('"function/', '"functions/').replace("/function/", "/functions/").replace('/function"', '/functions"')
+    h["static_touch"] = [[ren(p), c] for p, c in h.get("static_touch", [])]
+    h["statics"] = [x.replace("function/", "functions/") for x in h["statics"]]
+    return h
 
 
 def fixed_histories() -> list[dict]:
@@ -104,10 +210,18 @@ def fixed_histories() -> list[dict]:
         dict(base, out_exists=False, builds=[], last=dict(src=A, header=None)),
         # statics registered after the first build
         dict(base, statics=["keep", "../minecraft/keepmc"],
+             static_touch=[["data/ns/keep/a.txt", "precious"], ["data/minecraft/keepmc/m.txt", "m"]],
              builds=[dict(src=A, header=None),
                      dict(src=A, header='#static "keep"\n#static "../minecraft/keepmc"',
                           touch=[["data/ns/keep/a.txt", "precious"], ["data/minecraft/keepmc/m.txt", "m"]])],
              last=dict(src=B, header='#static "keep"\n#static "../minecraft/keepmc"')),
+        # (round 1) the override namespace IS minecraft: data/minecraft is deleted as an override and as the tag folder
+        dict(base, builds=[dict(src=A + "\n" + fn("minecraft.mcf") + "\n" + fn("minecraft.old.x"), header="#override minecraft")],
+             last=dict(src=B + "\n" + fn("minecraft.mcf"), header="#override minecraft")),
+        # (round 1) two override namespaces: their deletion order is the iteration order of a set of Paths (depends on the
+        # temporary path); the injected failure at the very first deletion leaves it unobserved -> retry_override_orders
+        dict(base, builds=[dict(src=A + "\n" + fn("foo.h") + "\n" + fn("bar.x.y"), header="#override foo\n#override bar")],
+             last=dict(src=B + "\n" + fn("bar.x.z"), header="#override bar\n#override foo")),
         # a failed compile and a failed deletion in between
         dict(base, builds=[dict(src=A, header=None), dict(src='function g() { say "g" }', header=None),
                            dict(src=A, header=None, oserror_path="data/ns/function")], last=dict(src=B, header=None)),
@@ -158,8 +272,40 @@ RBITS = {1: "the re-run was refused but modified the tree", 2: "the recovered tr
          4: "#static content changed"}
 
 
+def retry_override_orders(tmeta: list, codes: list, errs: list, prefix: str = "cases_perm") -> int:
+    """compiling.build deletes the override folders in the iteration order of a Python *set of Paths*, which depends on the
+    hash of the (temporary) output path.  case_term infers the order from the first deletion seen per folder; when a folder is
+    never touched (absent, or the run stopped / was killed / hit the injected fault earlier) the order is undetermined and the
+    alphabetical guess may be the wrong one.  Build.run takes the order as part of the header and every theorem quantifies
+    over all headers, so a real run agrees with the model iff SOME order reproduces it (an order contradicting the observed
+    deletions cannot: its plan differs from the trace).  Cases with >= 2 overrides and a non-zero code are re-evaluated under
+    the other permutations; codes[] is updated in place.  -> number of cases settled by a permutation."""
+    import itertools
+    retry = []
+    for i, ((tag, job, bi, b, info), code) in enumerate(zip(tmeta, codes)):
+        if code and len(info["overrides"]) >= 2:
+            for perm in itertools.permutations(info["overrides"]):
+                if list(perm) != list(info["overrides"]):
+                    try:
+                        retry.append((i, list(perm), case_term(job, bi, b, ov_order=list(perm))[0]))
+                    except Unmodelled:
+                        pass
+    if not retry:
+        return 0
+    pcodes, perrs = c10.eval_codes(PROP, [t for _, _, t in retry], prefix=prefix)
+    errs += perrs
+    settled = 0
+    for (i, perm, _), c in zip(retry, pcodes):
+        if c == 0 and codes[i]:
+            codes[i] = 0
+            tmeta[i][4]["overrides"] = perm
+            tmeta[i][4]["override_order_inferred_by_retry"] = True
+            settled += 1
+    return settled
+
+
 def job_of(h: dict, tail: list[dict]) -> dict:
-    j = {k: v for k, v in h.items() if k not in ("builds", "last", "statics")}
+    j = {k: v for k, v in h.items() if k not in ("builds", "last", "statics", "static_touch", "family", "light")}
     j["builds"] = copy.deepcopy(h["builds"]) + tail
     return j
 
@@ -182,13 +328,17 @@ def main(tier: str) -> int:
     ]
     ck.proof(extra_targets=["Run/C10.vo", "Run/C11.vo"])
     n_rand = 7 if tier == "quick" else 36
-    hs = fixed_histories() + [gen_history(ck.rng) for _ in range(n_rand)]
+    hs = fixed_histories() + [gen_history(ck.rng) for _ in range(n_rand)] + family_histories(ck.rng, tier)
     known = {f["id"]: f for f in known_for(PROP)}
+    cert0 = "\n".join(f"{k}={v}" for k, v in DEFAULT_CERT)
 
     # phase 1: un-interrupted history (last build twice) and the build into an empty directory
     base_jobs = [job_of(h, [dict(h["last"]), dict(h["last"])]) for h in hs]
-    fresh_jobs = [dict(ns=h["ns"], pack_format=h["pack_format"], desc=h["desc"], out_exists=True, init=h["init"],
-                       copy_src=h["copy_src"], builds=[dict(h["last"])]) for h in hs]
+    # the tree the last project is built into for C11_fresh: empty, or - when #static folders are declared - a startable
+    # tree holding nothing but jmc.txt and the same static content (the statics must exist for the header to be accepted)
+    fresh_jobs = [dict(ns=h["ns"], pack_format=h["pack_format"], desc=h["desc"], out_exists=True,
+                       init=h["init"] + ([[f"data/{h['ns']}/jmc.txt", cert0]] + h.get("static_touch", []) if h["statics"] else []),
+                       copy_src=h["copy_src"], out_dotdot=bool(h.get("out_dotdot")), builds=[dict(h["last"])]) for h in hs]
     base_res = run_jobs(base_jobs)
     fresh_res = run_jobs(fresh_jobs)
 
@@ -200,12 +350,24 @@ def main(tier: str) -> int:
             continue
         nb = len(h["builds"])
         n_mut = r["builds"][nb]["n_mut"]
+        if h.get("light"):
+            continue          # static-name family run without crash enumeration
+        failing = dict(h["last"], src=h["last"]["src"] + "\n" + FAIL_LEX[0])
         for k in range(1, n_mut + 1):
             crash_jobs.append(job_of(h, [dict(h["last"], crash_at=k), dict(h["last"])]))
             meta.append((hi, "crash", k))
             if r["builds"][nb]["trace"][k - 1][0] == "write":      # a second way of tearing the same write
                 crash_jobs.append(job_of(h, [dict(h["last"], crash_at=k, torn=[2, 5]), dict(h["last"])]))
                 meta.append((hi, "crash", k))
+            # (round 1) longer tails: a failing compile between the kill and the re-run; a second kill during the re-run
+            u = ck.rng.random()
+            if u < 0.10:
+                crash_jobs.append(job_of(h, [dict(h["last"], crash_at=k), failing, dict(h["last"])]))
+                meta.append((hi, "crash+failed-compile", k))
+            elif u < 0.22:
+                k2 = ck.rng.randint(1, n_mut)
+                crash_jobs.append(job_of(h, [dict(h["last"], crash_at=k), dict(h["last"], crash_at=k2), dict(h["last"])]))
+                meta.append((hi, "crash+crash", (k, k2)))
         dels = [ev[1] for ev in r["builds"][nb]["trace"] if ev[0] in ("unlink", "rmdir")]
         if not h["statics"]:
             for pth in dels[:: max(1, len(dels) // 3)][:3]:
@@ -243,9 +405,10 @@ def main(tier: str) -> int:
         first, second = r["builds"][nb], r["builds"][nb + 1]
         if real_result(first) != "RDone":
             continue
-        # C11_fresh: vs the build into an empty directory (only when no #static: a fresh tree cannot hold statics)
-        if not h["statics"] and real_result(fr["builds"][0]) == "RDone":
-            add_r(base_jobs[hi], first, first["before"], first["before"], fr["builds"][0]["after"], ("fresh-vs-empty", hi))
+        # C11_fresh: vs the build into an empty directory / into the tree holding only jmc.txt and the static content
+        if real_result(fr["builds"][0]) == "RDone":
+            add_r(base_jobs[hi], first, first["before"], first["before"], fr["builds"][0]["after"],
+                  ("fresh-vs-statics-only" if h["statics"] else "fresh-vs-empty", hi))
         # C11_twice
         add_r(base_jobs[hi], second, first["after"], first["after"], first["after"], ("twice", hi))
     for (hi, kind, k), job, r in zip(meta, crash_jobs, crash_res):
@@ -253,13 +416,16 @@ def main(tier: str) -> int:
             ck.violation(dict(kind="runner-error", history=job, log=r["runner_error"]), no_input=True)
             continue
         nb = len(hs[hi]["builds"])
-        bc, brec = r["builds"][nb], r["builds"][nb + 1]
-        add_case(job, nb, bc, ("crash-build", hi, kind, k))
-        add_case(job, nb + 1, brec, ("recovery-build", hi, kind, k))
+        bc, brec = r["builds"][nb], r["builds"][-1]
+        for bi in range(nb, len(r["builds"]) - 1):
+            add_case(job, bi, r["builds"][bi], ("crash-build" if bi == nb else "tail-build", hi, kind, k))
+        add_case(job, len(r["builds"]) - 1, brec, ("recovery-build", hi, kind, k))
         oracle = base_res[hi]["builds"][nb]["after"]
-        add_r(job, brec, bc["before"], bc["after"], oracle, ("recover", hi, kind, k, bc))
+        torn_b = next((b for b in r["builds"][nb:-1] if is_torn_cert(job, b)), bc)
+        add_r(job, brec, bc["before"], brec["before"], oracle, ("recover", hi, kind, k, torn_b))
 
     codes, errs = c10.eval_codes(PROP, terms, prefix="cases")
+    n_perm = retry_override_orders(tmeta, codes, errs)
     rcodes, rerrs = eval_rcodes(rterms)
     for e in errs + rerrs:
         ck.violation(dict(kind="correspondence-file-failed", log=e), no_input=True)
@@ -303,11 +469,12 @@ def main(tier: str) -> int:
         bits = [RBITS[k] for k in RBITS if rc and rc & k] + ([f"the re-run ended with {b_rec['exc']}"] if unexpected else [])
         ck.violation(dict(kind=f"{tag[0]}: " + "; ".join(bits), history=job, check=tag[0],
                           crash_point=crash_point_desc(tag[4]) if tag[0] == "recover" else None,
+                          fresh_job=fresh_jobs[tag[1]] if tag[0].startswith("fresh-vs") else None,
                           rerun=dict(result=res, exc=b_rec["exc"], changed=c10.describe_change(b_rec)),
                           expected="the re-run yields, inside data/<ns>, data/<override>, data/minecraft and at every path it writes, "
                                    "the files of the un-interrupted build, or is refused without modifying anything; #static unchanged",
                           how_to_replay="./check C11 --replay <this file>"))
-    crash_points = [m for m in meta if m[1] == "crash"]
+    crash_points = [m for m in meta if m[1].startswith("crash")]
     ck.cov.update(dict(
         evaluations=len(terms) + len(rterms), distinct_nontrivial=len(crash_points),
         rule="per history: the un-interrupted run (last build twice), the last build into an empty directory, and for EVERY mutation k of "
@@ -318,6 +485,13 @@ def main(tier: str) -> int:
         programs=len(hs), histories=len(hs), crash_points=len(crash_points), oserror_points=len(meta) - len(crash_points),
         recoveries=n_recover, recoveries_refused=n_refused, model_cases=len(terms), recovery_cases=len(rterms),
         disagreements_checked=n_case_bad + n_r_bad, unmodelled_skipped=unmodelled,
+        override_orders_settled_by_permutation=n_perm,
+        static_name_families=dict(
+            families=[f["name"] for f in STATIC_FAMILIES],
+            histories=sum(1 for h in hs if h.get("family")), with_crash_enumeration=sorted(h["family"] for h in hs if h.get("family") and not h.get("light")),
+            fresh_vs_statics_only_comparisons=sum(1 for t, _, _ in rmeta if t[0] == "fresh-vs-statics-only")),
+        longer_tails=dict(crash_then_failed_compile=sum(1 for m in meta if m[1] == "crash+failed-compile"),
+                          crash_then_crash=sum(1 for m in meta if m[1] == "crash+crash")),
         samples=[dict(history=[b.get("header") for b in h["builds"]] + [h["last"].get("header")], n_prefix_builds=len(h["builds"]),
                       crash_points=base_res[i]["builds"][len(h["builds"])]["n_mut"] if "builds" in base_res[i] else None)
                  for i, h in enumerate(hs[:6])],
@@ -335,14 +509,32 @@ def replay(path: str) -> int:
     if "runner_error" in r:
         print("actual: runner error", r["runner_error"])
         return 1
-    terms = []
+    terms, tm = [], []
     for bi, b in enumerate(r["builds"]):
         try:
-            terms.append(case_term(job, bi, b)[0])
+            t, info = case_term(job, bi, b)
+            terms.append(t)
+            tm.append(("replay", job, bi, b, info))
         except Unmodelled as e:
             print("build", bi, "unmodelled:", e)
     codes, errs = c10.eval_codes(PROP, terms, prefix="replay")
+    retry_override_orders(tm, codes, errs, prefix="replay_perm")
     last = r["builds"][-1]
+    if obj.get("fresh_job"):
+        # C11_fresh: the last build of the history vs the same project built into a tree that holds only jmc.txt + the statics
+        nb = len(job["builds"]) - 2          # the un-interrupted history ends with the last project built twice
+        first = r["builds"][nb]
+        fr = run_jobs([obj["fresh_job"]])[0]["builds"][0]
+        print("actual: last build:", real_result(first), "| fresh build:", real_result(fr), fr["exc"])
+        rt = rcase_term(job, first, first["before"], first["before"], fr["after"])
+        rcodes, rerrs = eval_rcodes([rt], prefix="replay_r")
+        bits = [RBITS[k] for k in RBITS if rcodes[0] and rcodes[0] & k]
+        got, want = dict(first["after"]), dict(fr["after"])
+        diff = sorted(p for p in set(got) | set(want) if got.get(p) != want.get(p) and (got.get(p) is not None or want.get(p) is not None))
+        print("actual: files differing from the fresh build (stale = present only after the history):",
+              [(p, "stale" if p not in want else "missing" if p not in got else "differs") for p in diff])
+        print("actual failed checks:", bits or "none")
+        return 1 if bits else 0
     print("actual: model-correspondence codes per build:", codes, errs)
     print("actual: re-run result:", real_result(last), last["exc"])
     # oracle: the same history without the interruption
